@@ -141,8 +141,15 @@ class Chooser:
         return n
 
 
+CHUNK = 64
+
+
 def blob_strategy(max_bytes):
-    return st.integers(0, max_bytes).flatmap(lambda n: st.binary(min_size=n, max_size=n))
+    """a list of fixed-size byte chunks with a uniformly drawn length (one large st.binary is
+    pathological for the shrinker: its sort key is quadratic in the size of the value)"""
+    k = max(1, max_bytes // CHUNK)
+    one = st.binary(min_size=CHUNK, max_size=CHUNK)
+    return st.integers(0, k).flatmap(lambda n: st.lists(one, min_size=n, max_size=n))
 
 
 # --------------------------------------------------------------------------------------------
@@ -224,7 +231,7 @@ class Ctx:
         self.scale = scale
         self.shrink_calls = 4000 if tier == "quick" else 20000
         self.shrink_s = 60 if tier == "quick" else 240
-        self.eval_timeout = 300
+        self.eval_timeout = 120 if tier == "quick" else 300
 
     # -- sizing
     def n(self, quick, thorough):
@@ -284,7 +291,7 @@ class Ctx:
                 state["calls"] += 1
                 if state["calls"] > ctx.shrink_calls or time.time() - state["t0"] > ctx.shrink_s:
                     raise _AbortShrink()
-            case = gen(Chooser(blob))
+            case = gen(Chooser(b"".join(blob)))
             if case is None:
                 if not shrinking:
                     acc.notes["generator_declined"] += 1
@@ -309,6 +316,7 @@ class Ctx:
                     raise PropertyFailure(sig)
                 acc.add_failure(sig, case, res.fail)
 
+        t_start = time.time()
         try:
             test()
         except PropertyFailure:
@@ -319,6 +327,9 @@ class Ctx:
             if state["best"] is None:
                 raise HarnessError("hypothesis error in %s: %r" % (name, e))
             acc.notes["hypothesis_%s" % type(e).__name__] += 1
+        if os.environ.get("VF_DEBUG"):
+            print("[shard %d] drive %s: %.1fs, %d evaluations, target=%s shrink_calls=%d" % (
+                self.shard, name, time.time() - t_start, acc.evaluations, state["target"], state["calls"]), file=sys.stderr)
         if state["best"] is not None:
             case, fail = state["best"]
             acc.add_failure(state["target"], case, fail)
